@@ -115,7 +115,7 @@ def generate(R: Draw, tier: str) -> dict:
         else:
             prog.append([k])
         nmaps += 1
-    return {"mode": "mapping", "prog": prog, "slice": [R.int(0, 3), R.int(0, 8)] if R.bool(0.3) else None}
+    return {"mode": "mapping", "prog": prog, "slice": [R.int(0, 3), R.int(0, 8)] if R.bool(0.3) else None, "interleave": R.bool(0.5)}
 
 
 # ------------------------------------------------------------------ oracle for one map
@@ -249,7 +249,24 @@ def check_mapping(case: dict, ctx: Ctx) -> None:
     def mk(ranges: list[int], inv: bool) -> tuple:
         return StepMap(list(ranges), inv), RefMap.from_stored(ranges, inv)
 
-    for step in case["prog"]:
+    def probe(tag: str) -> None:
+        """Queries on the mapping as built so far (a mapping is queried while it is still growing: every rebased
+        step maps through it before the next map is appended)."""
+        for a in range(len(ref_maps)):
+            g = call("get_mirror", lib.get_mirror, a)
+            require(g.ok and g.value == mirror.get(a), "mapping:mirror", f"{tag}: get_mirror({a}) = {g.value if g.ok else g.exc!r}, reference {mirror.get(a)}")
+        ref_now = RefMapping(ref_maps, mirror)
+        top_now = max([r.max_pos() for r in ref_maps] + [0]) + 2
+        for pos in range(top_now + 1):
+            for assoc in (-1, 1):
+                exp, _d = ref_now.map(pos, assoc, 0, len(ref_maps))
+                o = call("Mapping.map", lib.map, pos, assoc)
+                require(o.ok and o.value == exp, "Mapping.map:wrong", f"{tag}: map({pos},{assoc}) = {o.value if o.ok else o.exc!r}, reference {exp}")
+
+    for si, step in enumerate(case["prog"]):
+        if case.get("interleave") and si:
+            probe(f"after {si} of {len(case['prog'])} construction steps")
+            ctx.label("mapping:queried-while-growing")
         k = step[0]
         if k == "map":
             lm, rm_ = mk(step[1], step[2])
